@@ -36,7 +36,7 @@ def dispatch (op : String) (args : List String) : String :=
   | "iso" | "lin" | "smooth" => Resample.handle op args
   | "mst" => Mst.handle args
   | "views" => Views.handle args
-  | "imgaxes" | "imggrid" => Img.handle op args
+  | "imgaxes" | "imggrid" | "imgedge" => Img.handle op args
   | "feat" => Feat.handle args
   | "swcline" => SwcText.handleLine args
   | "swcread" => SwcText.handleRead args
